@@ -47,7 +47,49 @@ var iterLeaves = []string{"gen", "gen", "gen", "iter", "iter", "seq", "list", "r
 // IterExclude lists features that must not be generated (known findings).
 type IterExclude map[string]bool
 
+// genPipeline: a leaf that understands send() behind one or two yield-from
+// delegators, driven by interleaved next / send on the outermost (and
+// sometimes directly on an inner) object.
+func genPipeline(r *simrt.Rand) *IterProg {
+	p := &IterProg{}
+	leaf := IterProd{Kind: []string{"gen", "coro", "genfin", "coro"}[r.Intn(4)], Tag: 1, N: 1 + r.Intn(5), Fail: -1, Sub: -1, Stop: "StopIteration"}
+	if leaf.Kind != "coro" && r.Chance(1, 4) {
+		leaf.Fail = r.Intn(4)
+		leaf.Exc = IterExcs[r.Intn(len(IterExcs))]
+	}
+	p.Prods = append(p.Prods, leaf)
+	p.Ops = append(p.Ops, IterOp{K: "new", G: 0})
+	depth := 1 + r.Intn(2)
+	for d := 0; d < depth; d++ {
+		p.Prods = append(p.Prods, IterProd{Kind: "deleg", Tag: d + 2, Fail: -1, Sub: d, Stop: "StopIteration"})
+		p.Ops = append(p.Ops, IterOp{K: "new", G: d + 1})
+	}
+	top := len(p.Prods) - 1
+	n := 3 + r.Intn(8)
+	for i := 0; i < n; i++ {
+		g := top
+		if r.Chance(1, 6) {
+			g = r.Intn(len(p.Prods))
+		}
+		if r.Chance(1, 2) {
+			p.Ops = append(p.Ops, IterOp{K: "send", G: g, V: 1000 + i})
+		} else {
+			p.Ops = append(p.Ops, IterOp{K: "next", G: g})
+		}
+	}
+	if r.Chance(1, 3) {
+		p.Ops = append(p.Ops, IterOp{K: "use", G: top, Cons: "list"})
+	}
+	for g := range p.Prods {
+		p.Ops = append(p.Ops, IterOp{K: "probe", G: g})
+	}
+	return p
+}
+
 func GenIter(r *simrt.Rand, excl IterExclude) *IterProg {
+	if !excl["send"] && !excl["prod:deleg"] && r.Chance(1, 8) {
+		return genPipeline(r)
+	}
 	p := &IterProg{}
 	nops := 3 + r.Intn(10)
 	pickFrom := func(list []string, prefix string) string {
